@@ -64,6 +64,43 @@ def _len_bound(repo, fn, cond, base_txt, negate=False):
     return None
 
 
+def guard_held(repo, owner, line):
+    """`X...next().unwrap()` at `line`: some test that dominates it mentions the root variable of X (starts_with / is_empty / len / a
+    pattern on it), and X's root is not assigned between that test and the site"""
+    fn = repo.fn(owner)
+    if fn is None:
+        return False, f"{owner} not found"
+    pm = A.parent_map(fn.body)
+    sites = [n for n in A.walk(fn.body) if n["k"] == "MethodCall" and n["method"] in ("unwrap", "expect") and n["l"] <= line <= n["el"] and n["recv"].get("k") == "MethodCall" and n["recv"]["method"] == "next"]
+    if not sites:
+        return False, "no `.next().unwrap()` found at the recorded line"
+    site = sites[0]
+    root = site["recv"]["recv"]
+    while root.get("k") in ("MethodCall", "Field", "Ref", "Paren", "Unary", "Index", "Try"):
+        root = root.get("recv") or root.get("base") or root.get("expr")
+    if root is None or root.get("k") != "Path":
+        return False, "the iterated value is not a plain variable"
+    v = root["path"]
+    word = re.compile(r"(?<![A-Za-z0-9_])%s(?![A-Za-z0-9_])" % re.escape(v))
+    conds = []
+    for g, role in A.guards_of(site, pm):
+        if g["k"] in ("If", "While"):
+            conds.append(g["cond"])
+        elif g["k"] == "Arm" and g.get("guard") is not None:
+            conds.append(g["guard"])
+    for kind, c, st in A.preceding_guards(site, pm):
+        conds.append(c if kind == "if" else c.get("init") or c)
+    tests = [c for c in conds if c is not None and word.search(" ".join(repo.text(fn.file, c).split()))]
+    if not tests:
+        return False, f"`{v}...next().unwrap()` with no test of `{v}` in front of it: an empty `{v}` panics"
+    assigns = [a for a in A.walk(fn.body) if a["k"] == "Assign" and a["left"].get("k") == "Path" and a["left"]["path"] == v]
+    for t in sorted(tests, key=A.pos, reverse=True):
+        between = [a for a in assigns if A.before(t, a) and A.before(a, site)]
+        if not between:
+            return True, f"`{v}` is tested by `{' '.join(repo.text(fn.file, t).split())[:50]}` and not reassigned before `.next().unwrap()`"
+    return False, f"`{v}` is reassigned between the test of it and `.next().unwrap()`: the test no longer speaks about the value that is unwrapped (an empty `{v}` panics)"
+
+
 def guarded_literal_index(repo, site):
     """`v[k]` with a literal k, standing where a test of `v.len()` / `v.is_empty()` on the same (immutable since) receiver
     guarantees len > k: an enclosing `if`, or an earlier `if .. { return / continue / break }` in an enclosing block"""
@@ -249,6 +286,12 @@ def panic_rule(repo, mir, reach, res, rule="PANIC"):
             res.bad(rule, key_str(k), r["why"], loc)
         else:
             res.ok(rule, key_str(k), f"{n}x {r['class']}: {r['why']}", loc)
+            if r["class"] == "GUARD" and k[1] == "unwrap" and (k[3] or "").endswith("::next"):
+                # the row's argument is a test that stands in front of the site: re-checked on every run (the test is still there, it
+                # looks at the same variable, and the variable is not reassigned between the test and the `.next().unwrap()`)
+                for w in where[k]:
+                    held, how = guard_held(repo, k[0], int(w.rsplit(":", 1)[1]))
+                    res.check(held, rule, key_str(k) + ":guard-held", how, w)
     for k, r in rows.items():
         if k not in groups:
             res.advisory(f"panic table row no longer matches any site (stale): {k[0]} {k[1]} {k[3]}")
